@@ -266,6 +266,8 @@ pub fn for_type_binop(lhs: &Expr, op: &Op, rhs: &Expr, flags: &Flags) -> (r: Res
         // C03 / C16: a compound assignment is accepted only onto an assignable place: a name, an element or a field (code generation
         // has no case for anything else and would panic)
         (r is Ok && op_assigns(*op)) ==> (lhs is Value && lhs->Value_0 is Ident) || lhs is Index || lhs is DotLookup,
+        // `?=` binds a NAME: accepted only with a variable name on its left (code generation has no other case)
+        (r is Ok && *op is Unwrap) ==> lhs is Value && lhs->Value_0 is Ident,
         // C03: an accepted binary operation is supported by the operator table for the operand types
         r is Ok ==> exists|l: TypeLayout, rt: TypeLayout| #[trigger] output_type(&l, &rt, *op, flags) == Some(r->Ok_0),
 {{
